@@ -17,10 +17,10 @@ Proof. intros s id now fuel H. apply rem_fuel_irrelevant. exact H. Qed.
 
 Theorem cascade_exact_linear : cascade_exact_linear_statement.
 Proof.
-  intros s id now s' had Hk Hf _ _ Hne Hnv Hx Hrem.
+  intros s id now s' had Hk Hf _ _ Hne Hrem.
   assert (Hg : good s now) by (repeat split; auto).
   unfold st_rem in Hrem.
-  destruct (rem_fuel_exact now _ s id s' had Hg Hx Hrem) as (Hhad & D & HxD & HDclo & Hclosed & HR).
+  destruct (rem_fuel_exact now _ s id s' had Hg Hrem) as (Hhad & D & HxD & HDclo & Hclosed & HR).
   destruct HR as (_ & _ & HF & HS).
   split; [exact Hhad|]. split.
   - intros j Hj. assert (Hm : mem_str j D = true).
@@ -42,28 +42,30 @@ Proof.
   destruct o as [had| | |]; try contradiction; eauto.
 Qed.
 
-(** D14 witness: one fact that depends on "other"; removing the absent,
-    variable-looking id "?zzz" deletes it. *)
+(** D14 (repaired): "keep" depends on "other", "dep" on the variable-looking
+    id "?zzz"; removing the absent id "?zzz" deletes "dep" only. *)
 Definition d14_state : state :=
-  mkState Linear [("keep", JObj [("deleteWith", JArr [JStr "other"])])] [] pn_empty [] false 0 None false [].
-Definition d14_state' : state :=
-  mkState Linear [] [] pn_empty [] false 2 None false [].
+  mkState Linear [("dep", JObj [("deleteWith", JArr [JStr "?zzz"])]);
+                  ("keep", JObj [("deleteWith", JArr [JStr "other"])])] [] pn_empty [] false 0 None false [].
 
-Lemma d14_clo j : Clo d14_state "?zzz" j -> j = "?zzz".
+Lemma d14_clo j : Clo d14_state "?zzz" j -> j = "?zzz" \/ j = "dep".
 Proof.
   intros H. induction H as [|x j fact H IH Hj Hn]; auto.
-  subst x. exfalso. cbn [d14_state st_facts alookup] in Hj.
-  destruct (String.eqb j "keep"); [|discriminate].
-  inversion Hj; subst fact. vm_compute in Hn. discriminate.
+  cbn [d14_state st_facts alookup] in Hj.
+  destruct (String.eqb j "dep") eqn:E1; [apply String.eqb_eq in E1; auto|].
+  destruct (String.eqb j "keep") eqn:E2; [|discriminate].
+  inversion Hj; subst fact. exfalso.
+  destruct IH as [->| ->]; vm_compute in Hn; discriminate.
 Qed.
 
-Theorem varlike_id_refuted : varlike_id_refuted_statement.
+Theorem varlike_id_removes_literal_dependents : varlike_id_removes_literal_dependents_statement.
 Proof.
-  exists d14_state, d14_state'. split; [reflexivity|]. split; [|split; [|split]].
-  - vm_compute. discriminate.
-  - intros H. apply d14_clo in H. discriminate.
-  - vm_compute. reflexivity.
-  - reflexivity.
+  exists d14_state, (fst (st_rem d14_state "?zzz" 100)).
+  split; [reflexivity|]. split; [vm_compute; discriminate|]. split.
+  { intros H. apply d14_clo in H. destruct H; discriminate. }
+  split; [vm_compute; discriminate|]. split.
+  { eapply Clo_dep; [apply Clo_root|reflexivity|reflexivity]. }
+  split; [vm_compute; reflexivity|]. split; vm_compute; reflexivity.
 Qed.
 
 Print Assumptions cascade_terminates.
@@ -72,4 +74,4 @@ Print Assumptions purge_keeps_answer.
 Print Assumptions cascade_fuel_irrelevant.
 Print Assumptions cascade_exact_linear.
 Print Assumptions cascade_ok_linear.
-Print Assumptions varlike_id_refuted.
+Print Assumptions varlike_id_removes_literal_dependents.
